@@ -51,6 +51,8 @@ case "$cmd" in
     build_pkg "$eng" || exit 2
     # C08 also runs the sequential content oracle, C09 the scheduler monitors of the enumeration binary
     if [ "$id" = C08 ] || [ "$id" = C09 ]; then build_pkg e1 || exit 2; export VERIF_E1_BIN="$CARGO_TARGET_DIR/release/e1"; fi
+    # C11 also runs the loom bodies with drop accounting
+    if [ "$id" = C11 ]; then build_pkg e3 || exit 2; export VERIF_E3_BIN="${CARGO_TARGET_DIR}-loom/release/e3"; fi
     export VERIF_TIER="$tier"
     if [ "$id" = C16 ]; then
       export VERIF_UNICODE_REF="$CARGO_TARGET_DIR/unicode_ref.txt"
@@ -64,7 +66,7 @@ case "$cmd" in
     id="${2:?property id}"; file="${3:?replay file}"
     eng="$(engine_of "$id")"
     # sequential-history cases of C08 are replayed by the enumeration binary
-    case "$file" in *C08_seq_*) eng=e1 ;; esac
+    case "$file" in *C08_seq_*) eng=e1 ;; *C11_loom_*) eng=e3 ;; esac
     build_pkg "$eng" || exit 2
     if [ "$id" = C16 ]; then
       export VERIF_UNICODE_REF="$CARGO_TARGET_DIR/unicode_ref.txt"
